@@ -37,6 +37,8 @@ struct Stream {
     writable_event_tx: mpsc::Sender<()>,
     /// See [`StreamSource.reset_by_client`]
     reset_by_client: Arc<AtomicBool>,
+    /// See [`StreamSink.reset_code`]
+    reset_code: u64,
     read_shutdown: bool,
     write_shutdown: bool,
 }
@@ -180,8 +182,12 @@ impl Http3Codec {
                 Ok(None)
             }
             QuicSocketEvent::Close(stream_id) => {
+                // the client abandoned the request: the response is abandoned with it, what
+                // has been sent of it is not to be taken for the whole of it
                 if let Some(stream) = self.streams.get(&stream_id) {
                     stream.reset_by_client.store(true, Ordering::Release);
+                    let reset_code = stream.reset_code;
+                    let _ = self.on_stream_reset(stream_id, reset_code);
                 }
                 let _ = self.on_stream_shutdown(stream_id, None);
                 Ok(None)
@@ -214,6 +220,7 @@ impl Http3Codec {
                 readable_event_tx: readable_tx,
                 writable_event_tx: writable_tx,
                 reset_by_client: reset_by_client.clone(),
+                reset_code,
                 read_shutdown: false,
                 write_shutdown: false,
             },
